@@ -102,6 +102,19 @@ func AllLints(f *Func) []LintHit {
 		out = append(out, LintHit{"shallow", fmt.Sprintf("%s#shallow(%s)", f.Name, sc.Field), sc.Pos,
 			fmt.Sprintf("the copy takes field %s from the source as is although %s has a duplicator of its own: copy and original share the %s values, and a change made through one is seen through the other", sc.Field, sc.Elem, sc.Elem)})
 	}
+	for _, g := range LateGuardMarks(f) {
+		out = append(out, LintHit{"lateguard", fmt.Sprintf("%s#lateguard(%s)", f.Name, g.Map), g.Store.Pos(),
+			fmt.Sprintf("the visited set %s is updated after the recursive descent in the same block: a cycle re-enters the function before the element is recorded and recursion does not terminate", g.Map)})
+	}
+	// ParallelAppends is not armed: "filled in lock step" cannot be told apart from two lists that merely share a block (6 false reports on the reference tree).
+	for _, ts := range UserTypeOnlySwitches(f) {
+		out = append(out, LintHit{"utswitch", fmt.Sprintf("%s#typeswitch(%s)", f.Name, Src(f.Pkg.Fset, ts.Assign)), ts.Pos(),
+			"the type switch has an arm for *UserTypeExpr but none for *ResultTypeExpr or the UserType interface: result types are not handled by it"})
+	}
+	for _, u := range UseAfterPuts(f) {
+		out = append(out, LintHit{"afterput", fmt.Sprintf("%s#afterput(%s)", f.Name, u.Name), u.Use.Pos(),
+			fmt.Sprintf("%s is used after the value was returned to its sync.Pool: another goroutine may already be writing to it", u.Name)})
+	}
 	for _, bb := range BareBreaks(f) {
 		cond := Src(f.Pkg.Fset, bb.If.Cond)
 		if bb.If.Init != nil {
@@ -1378,6 +1391,282 @@ func ShallowCopies(f *Func) []ShallowCopy {
 						}
 					}
 				}
+			}
+		}
+		return true
+	})
+	return out
+}
+
+// LateGuardMark: a self-recursive function protects itself against cycles with
+// a visited set it passes down; the element must be recorded BEFORE descending.
+// Here the store into the set follows, in the same block, a statement that
+// contains the recursive call: a cycle through the element re-enters the
+// function before the element is marked and recurses without bound.
+type LateGuardMark struct {
+	Store *ast.AssignStmt
+	Map   string
+}
+
+func LateGuardMarks(f *Func) []LateGuardMark {
+	info := f.Pkg.TypesInfo
+	var out []LateGuardMark
+	hasRecursion := func(n ast.Node, guard types.Object) bool {
+		found := false
+		ast.Inspect(n, func(m ast.Node) bool {
+			call, ok := m.(*ast.CallExpr)
+			if !ok || Callee(info, call) != f.Obj {
+				return true
+			}
+			for _, a := range call.Args {
+				if id, ok := ast.Unparen(a).(*ast.Ident); ok && info.Uses[id] == guard {
+					found = true
+				}
+			}
+			return !found
+		})
+		return found
+	}
+	ast.Inspect(f.Decl.Body, func(nd ast.Node) bool {
+		blk, ok := nd.(*ast.BlockStmt)
+		if !ok {
+			return true
+		}
+		for i, st := range blk.List {
+			as, ok := st.(*ast.AssignStmt)
+			if !ok || len(as.Lhs) != 1 {
+				continue
+			}
+			ix, ok := as.Lhs[0].(*ast.IndexExpr)
+			if !ok {
+				continue
+			}
+			id, ok := ast.Unparen(ix.X).(*ast.Ident)
+			if !ok {
+				continue
+			}
+			guard := info.Uses[id]
+			if guard == nil {
+				continue
+			}
+			if _, isMap := guard.Type().Underlying().(*types.Map); !isMap {
+				continue
+			}
+			// is the map a parameter of f ?
+			isParam := false
+			sig := f.Obj.Type().(*types.Signature)
+			for k := 0; k < sig.Params().Len(); k++ {
+				if sig.Params().At(k) == guard {
+					isParam = true
+				}
+			}
+			if !isParam {
+				continue
+			}
+			for _, before := range blk.List[:i] {
+				if hasRecursion(before, guard) {
+					out = append(out, LateGuardMark{as, id.Name})
+					break
+				}
+			}
+		}
+		return true
+	})
+	return out
+}
+
+// ParallelAppend: two slices are filled in lock step (both appended to in one
+// block: names[i] goes with values[i]); elsewhere one of them is appended to in
+// a block that does not append to the other. The slices drift apart and the
+// consumer pairs the wrong elements.
+type ParallelAppend struct {
+	Stmt      *ast.AssignStmt
+	Slice     string
+	Companion string
+}
+
+func ParallelAppends(f *Func) []ParallelAppend {
+	info := f.Pkg.TypesInfo
+	type app struct {
+		as  *ast.AssignStmt
+		obj types.Object
+		blk *ast.BlockStmt
+	}
+	var apps []app
+	ast.Inspect(f.Decl.Body, func(nd ast.Node) bool {
+		blk, ok := nd.(*ast.BlockStmt)
+		if !ok {
+			return true
+		}
+		for _, st := range blk.List {
+			as, ok := st.(*ast.AssignStmt)
+			if !ok || len(as.Lhs) != 1 || len(as.Rhs) != 1 {
+				continue
+			}
+			call, ok := as.Rhs[0].(*ast.CallExpr)
+			if !ok || len(call.Args) < 2 {
+				continue
+			}
+			if id, ok := call.Fun.(*ast.Ident); !ok || id.Name != "append" {
+				continue
+			}
+			l, ok1 := as.Lhs[0].(*ast.Ident)
+			a0, ok2 := ast.Unparen(call.Args[0]).(*ast.Ident)
+			if !ok1 || !ok2 || info.ObjectOf(l) == nil || info.ObjectOf(l) != info.ObjectOf(a0) {
+				continue
+			}
+			apps = append(apps, app{as, info.ObjectOf(l), blk})
+		}
+		return true
+	})
+	// companions: appended in the same block
+	comp := map[types.Object]map[types.Object]int{}
+	for i := range apps {
+		for j := range apps {
+			if i != j && apps[i].blk == apps[j].blk && apps[i].obj != apps[j].obj {
+				if comp[apps[i].obj] == nil {
+					comp[apps[i].obj] = map[types.Object]int{}
+				}
+				comp[apps[i].obj][apps[j].obj]++
+			}
+		}
+	}
+	var out []ParallelAppend
+	// separate[a][c]: appends to a in a block that does not append to c
+	separate := map[types.Object]map[types.Object]int{}
+	for _, a := range apps {
+		for c := range comp[a.obj] {
+			has := false
+			for _, b := range apps {
+				if b.blk == a.blk && b.obj == c {
+					has = true
+				}
+			}
+			if !has {
+				if separate[a.obj] == nil {
+					separate[a.obj] = map[types.Object]int{}
+				}
+				separate[a.obj][c]++
+			}
+		}
+	}
+	for _, a := range apps {
+		for c, n := range comp[a.obj] {
+			// lock step is the rule (at least as many joint appends as separate ones, for both lists)
+			if n < 1 || separate[a.obj][c] > n || separate[c][a.obj] > n {
+				continue
+			}
+			// a's block must also append to c
+			has := false
+			for _, b := range apps {
+				if b.blk == a.blk && b.obj == c {
+					has = true
+				}
+			}
+			// declared in the same scope (two result lists built together), both local
+			if !has && a.obj.Parent() == c.Parent() {
+				out = append(out, ParallelAppend{a.as, a.obj.Name(), c.Name()})
+			}
+		}
+	}
+	sort.Slice(out, func(i, j int) bool { return out[i].Stmt.Pos() < out[j].Stmt.Pos() })
+	return out
+}
+
+// UserTypeOnlySwitch: a type switch over a data type has an arm for the concrete
+// *UserTypeExpr but none for *ResultTypeExpr (nor for the UserType interface
+// both implement): result types, which are user types, fall through to the
+// default and are not handled.
+func UserTypeOnlySwitches(f *Func) []*ast.TypeSwitchStmt {
+	info := f.Pkg.TypesInfo
+	var out []*ast.TypeSwitchStmt
+	ast.Inspect(f.Decl.Body, func(nd ast.Node) bool {
+		ts, ok := nd.(*ast.TypeSwitchStmt)
+		if !ok {
+			return true
+		}
+		hasUT, hasRT := false, false
+		for _, st := range ts.Body.List {
+			for _, e := range st.(*ast.CaseClause).List {
+				t := info.TypeOf(e)
+				if t == nil {
+					continue
+				}
+				s := t.String()
+				switch {
+				case strings.HasSuffix(s, "/expr.UserTypeExpr"):
+					hasUT = true
+				case strings.HasSuffix(s, "/expr.ResultTypeExpr"), strings.HasSuffix(s, "/expr.UserType"):
+					hasRT = true
+				}
+			}
+		}
+		if hasUT && !hasRT {
+			out = append(out, ts)
+		}
+		return true
+	})
+	return out
+}
+
+// UseAfterPut: a value is handed back to a sync.Pool and then still used - or a
+// slice obtained from it (buf.Bytes()) is: the pool may give the value to another
+// goroutine, which overwrites it while it is being read here.
+type UseAfterPut struct {
+	Use  ast.Node
+	Name string
+}
+
+func UseAfterPuts(f *Func) []UseAfterPut {
+	info := f.Pkg.TypesInfo
+	var out []UseAfterPut
+	ast.Inspect(f.Decl.Body, func(nd ast.Node) bool {
+		blk, ok := nd.(*ast.BlockStmt)
+		if !ok {
+			return true
+		}
+		for i, st := range blk.List {
+			es, ok := st.(*ast.ExprStmt)
+			if !ok {
+				continue
+			}
+			call, ok := es.X.(*ast.CallExpr)
+			if !ok || CalleeName(info, call) != "(*sync.Pool).Put" || len(call.Args) != 1 {
+				continue
+			}
+			obj := ObjOf(info, call.Args[0])
+			if obj == nil {
+				continue
+			}
+			// aliases: variables defined before the Put from a method call on obj returning a slice
+			tainted := map[types.Object]string{obj: obj.Name()}
+			for _, before := range blk.List[:i] {
+				as, ok := before.(*ast.AssignStmt)
+				if !ok || len(as.Lhs) != 1 || len(as.Rhs) != 1 {
+					continue
+				}
+				c2, ok := as.Rhs[0].(*ast.CallExpr)
+				if !ok {
+					continue
+				}
+				if se, ok := c2.Fun.(*ast.SelectorExpr); ok && ObjOf(info, se.X) == obj {
+					if _, isSlice := info.TypeOf(c2).Underlying().(*types.Slice); isSlice {
+						if lo := ObjOf(info, as.Lhs[0]); lo != nil {
+							tainted[lo] = lo.Name() + " (= " + Src(f.Pkg.Fset, c2) + ")"
+						}
+					}
+				}
+			}
+			for _, after := range blk.List[i+1:] {
+				ast.Inspect(after, func(m ast.Node) bool {
+					if id, ok := m.(*ast.Ident); ok {
+						if name, bad := tainted[info.Uses[id]]; bad {
+							out = append(out, UseAfterPut{id, name})
+							return false
+						}
+					}
+					return true
+				})
 			}
 		}
 		return true
